@@ -145,6 +145,27 @@ def shape_indexed(reg, code, idx_width, pos='suffix', align=True, endian=None, i
     return {'kind': typ, 'cfg': cfg, 'pos': pos, 'align': align, 'endian': endian, 'insts': insts, 'needs': set()}
 
 
+def shape_indexed_nbc(reg, code, idx_width, pos='suffix', indirect=False):
+    """reg + <numeric_bytecode index with a signed range>: the index value becomes part of a composite code"""
+    typ = 'indirect_indexed_register' if indirect else 'indexed_register'
+    lo, hi = -(1 << (idx_width - 1)), (1 << (idx_width - 1)) - 1
+
+    def cfg(de):
+        return {'type': typ, 'register': reg, 'bytecode': _codecfg(code, pos),
+                'index_operands': {'nb': {'type': 'numeric_bytecode', 'bytecode': {'size': idx_width, 'min': lo, 'max': hi}}}}
+    fmt = '[{}+{}]' if indirect else '{} + {}'
+    consts = {}
+    insts = []
+    for v in sorted({lo, -1, 0, 1, hi}):
+        name = f'KI{idx_width}_{"m" if v < 0 else "p"}{abs(v)}'
+        consts[name] = v
+        full = ((code[0] << idx_width) | (v % (1 << idx_width)), code[1] + idx_width)
+        insts.append((fmt.format(reg, name), full, None))
+        if v >= 0:
+            insts.append((fmt.format(reg, v), full, None))
+    return {'kind': typ, 'cfg': cfg, 'pos': pos, 'align': False, 'endian': None, 'insts': insts, 'needs': set(), 'consts': consts}
+
+
 def shape_enumeration(code_width, arg_width, pos='suffix', align=True, endian=None):
     keys = {'foo': (1, 2), 'bar': (2, 5), 'baz_1': (3, 0)}
 
